@@ -27,7 +27,7 @@ ASSUMPTIONS = [
     'smoothing window is a percentage of the layer count (0-100)',
     'for Guillot parameters outside the documented bounds but not in a listed rejected class nothing beyond agreement with the closed form is asserted',
 ]
-REQUIRED = {'kind:npoint': 0.08, 'kind:guillot': 0.06, 'kind:array': 0.04, 'kind:file': 0.03, 'kind:rodgers': 0.04,
+REQUIRED = {'negative-node': 0.01, 'kind:npoint': 0.08, 'kind:guillot': 0.06, 'kind:array': 0.04, 'kind:file': 0.03, 'kind:rodgers': 0.04,
             'kind:isothermal': 0.02, 'rejected-class': 0.04}
 MJUP = 1.2668653e17 / 6.6743e-11
 RJUP = 71492000.0
@@ -57,7 +57,8 @@ def _case(draw):
         c['p_fracs'] = fr
         c['ends'] = draw(st.sampled_from(['default', 'default', 'explicit', 'minus-one']))
         c['smooth'] = draw(st.sampled_from([10, 100, 0, 1, 5, 20, 33, 50, 100, 7.5, 3, 99]))
-        c['fault'] = draw(st.sampled_from([None, 'nearly-equal', None, 'inverted', 'slope', 'equal-controls', 'nearly-equal']))
+        c['fault'] = draw(st.sampled_from([None, 'nearly-equal', None, 'inverted', 'slope', 'equal-controls', 'nearly-equal', 'negative-node']))
+        c['late_fault'] = draw(st.booleans())
         c['limit'] = draw(st.floats(10.0, 5000.0))
         c['inv_at'] = draw(st.floats(0.0, 0.999))
         c['inv_equal'] = draw(st.booleans())
@@ -162,6 +163,14 @@ def check(case):
                 inv_kw = {'P_surface': full[0], 'P_top': full[-1]}
                 expect_reject = True
                 out.cls('inverted-at:%s' % ('top' if j + 1 == len(full) - 1 else ('surface' if j == 0 else 'interior')))
+            elif fault == 'negative-node' and ppts:
+                # an interior node at a negative (or zero) pressure: the node pressures do not decrease
+                j = int(c.get('inv_at', 0.5) * len(ppts)) % len(ppts)
+                good_ppts = list(ppts)
+                ppts = list(ppts)
+                ppts[j] = 0.0 if c.get('inv_equal') else -ppts[j]
+                expect_reject = True
+                out.cls('negative-node')
             elif fault == 'equal-controls':
                 Tpts = [Ts] * len(Tpts)
                 Tt = Ts
@@ -187,8 +196,18 @@ def check(case):
                 if max(slopes) > 0:
                     limit = max(slopes) * 0.9
                     expect_reject = True
+            late = None
+            if fault == 'negative-node' and expect_reject and c.get('late_fault'):
+                late = (j, ppts[j])
+                ppts = good_ppts
+                out.cls('fault-set-after-first-use')
             tp = cut(out, 'construct', NPoint, T_surface=Ts, T_top=Tt, temperature_points=Tpts, pressure_points=ppts,
                      smoothing_window=c['smooth'], limit_slope=limit, **kw)
+            if late is not None:
+                tp.initialize_profile(planet, nl, P.copy())
+                with np.errstate(all='ignore'):
+                    cut(out, 'profile@npoint', lambda: np.asarray(tp.profile, dtype=float))
+                tp.fitting_parameters()['P_point%d' % (late[0] + 1)][3](late[1])
             controls = [Ts] + Tpts + [Tt]
             out.cls('npoint:nodes=%d' % min(len(Tpts), 3))
             nontriv = len(Tpts) >= 1 or nl * c['smooth'] / 100.0 >= 3
@@ -296,6 +315,21 @@ def check(case):
     out.applies('one-per-layer')
     if T.shape != (nl,):
         out.fail('one-per-layer@' + kind, 'shape %s for %d layers' % (T.shape, nl))
+        return out
+    # the profile is a function of the current parameters: reading it again (the forward model, avg_T and
+    # write() all read it), also after re-initialising on the same grid, returns the same temperatures
+    out.applies('repeatable')
+    try:
+        with np.errstate(all='ignore'):
+            for step in ('second-read', 'third-read', 're-initialised'):
+                if step == 're-initialised':
+                    cut(out, 'initialize_profile', tp.initialize_profile, planet, nl, P.copy())
+                Tn = cut(out, 'profile@%s' % kind, lambda: np.asarray(tp.profile, dtype=float))
+                if Tn.shape != T.shape or not np.array_equal(Tn, T):
+                    out.fail('repeatable@%s,%s' % (kind, step), 'first read [%r, %r], %s [%r, %r]'
+                             % (float(T.min()), float(T.max()), step, float(np.nanmin(Tn)), float(np.nanmax(Tn))))
+                    break
+    except CutError:
         return out
     if kind == 'guillot':
         g = ref.G_NEWTON * c['mass'] * MJUP / (c['radius'] * RJUP) ** 2
